@@ -12,6 +12,13 @@ impl InstructionGenerator {
             ..
         } = s;
         self.generate_eval_select_case_expr(expr, pos);
+        // if the selector expression fails, the statement to continue with
+        // (RESUME NEXT) is the one after END SELECT: nothing was pushed
+        self.jump("select-begin", pos);
+        self.mark_statement_address();
+        self.jump("select-skip", pos);
+        self.label("select-begin", pos);
+        self.mark_statement_address();
         self.select_depth += 1;
         self.generate_case_blocks(case_blocks, else_block.is_some(), pos);
         self.generate_else_block(else_block, pos);
@@ -20,6 +27,7 @@ impl InstructionGenerator {
         // (on every path: a matched CASE block jumps to the end-select label)
         self.label(labels::end_select(), pos);
         self.push(Instruction::PopValueStackIntoA, pos);
+        self.label("select-skip", pos);
     }
 
     /// Evaluate SELECT CASE x into A
@@ -33,6 +41,8 @@ impl InstructionGenerator {
         for (case_block_index, case_block) in case_blocks.into_iter().enumerate() {
             // mark the beginning of this case block
             self.label(&labels::case_block(case_block_index), pos);
+            // the CASE expressions are what RESUME re-evaluates when one of them fails
+            self.mark_statement_address();
             // where to jump out from here if the case block isn't matching
             let next_case_label =
                 labels::next_case_label(case_blocks_len, has_else, case_block_index);
